@@ -201,7 +201,7 @@ def r2_r3_step(ctx, E):
                 bad.append("the buffer handed to pread is not a fresh Vec with capacity == count")
             # chunk emitted
             chunk = agg_get(item, "0")
-            cv = chunk[2][0] if isinstance(chunk, tuple) and chunk[0] == "call" and chunk[1].endswith("::into") else chunk
+            cv = chunk[2][0] if isinstance(chunk, tuple) and chunk[0] == "call" and (chunk[1].endswith("::into") or chunk[1].endswith("::from")) else chunk
             if not (isinstance(cv, tuple) and cv[0] == "setlen"):
                 bad.append("the emitted chunk is %s, not the read buffer with its length set" % short(cv, 60))
             else:
